@@ -4,6 +4,8 @@
 //
 //	cases xxh   one-shot checksums (X1) and streaming sessions (XS)
 //	cases dec   decodeBlock (D)
+//	cases cmp   (*Compressor).CompressBlock (C)
+//	cases cmpfar  four 64 KiB sources for the window-size boundary (C; slow to evaluate)
 package main
 
 import (
@@ -12,9 +14,11 @@ import (
 	"fmt"
 	"math/rand"
 	"os"
+	"sort"
 	"strings"
 
 	"github.com/pierrec/lz4/v4/internal/lz4block"
+	"github.com/pierrec/lz4/v4/internal/lz4errors"
 	"github.com/pierrec/lz4/v4/internal/xxh32"
 )
 
@@ -560,10 +564,268 @@ func decCases() {
 	}
 }
 
+// ---------------------------------------------------------------- fast block compressor
+
+// sparse prints the non-zero entries of a table as idx=val,idx=val ("-" when all are zero).
+func sparse16(t *[65536]uint16) string {
+	var sb strings.Builder
+	for i, v := range t {
+		if v != 0 {
+			if sb.Len() > 0 {
+				sb.WriteByte(',')
+			}
+			fmt.Fprintf(&sb, "%d=%d", i, v)
+		}
+	}
+	if sb.Len() == 0 {
+		return "-"
+	}
+	return sb.String()
+}
+
+func sparse32(t *[2048]uint32) string {
+	var sb strings.Builder
+	for i, v := range t {
+		if v != 0 {
+			if sb.Len() > 0 {
+				sb.WriteByte(',')
+			}
+			fmt.Fprintf(&sb, "%d=%d", i, v)
+		}
+	}
+	if sb.Len() == 0 {
+		return "-"
+	}
+	return sb.String()
+}
+
+var cmpStats = map[string]int{}
+
+// cmpCase runs the real (*Compressor).CompressBlock on the compressor c (whose table and bitmap are the
+// state left by whatever happened before) and prints
+//
+//	C <table> <inUse> <src> <srcSpare> <dst> <dstSpare> <n> <err> <dst'> <table'> <inUse'>
+//
+// dst / dst' are the complete backing array of dst (length + spare capacity); err is 0 (nil),
+// 1 (ErrInvalidSourceShortBuffer), 2 (any other error); a panic gives n = PANIC.
+func cmpCase(c *lz4block.Compressor, src []byte, srcSpare int, dstFull []byte, dstLen int) {
+	in := withSpare(src, srcSpare)
+	for i := len(src); i < cap(in); i++ {
+		in[:cap(in)][i] = 0
+	}
+	t0, u0 := sparse16(c.VerifTable()), sparse32(c.VerifInUse())
+	d := append([]byte{}, dstFull...)
+	before := hx(d)
+	n, code := "", 0
+	func() {
+		defer func() {
+			if recover() != nil {
+				n = "PANIC"
+			}
+		}()
+		r, err := c.CompressBlock(in, d[:dstLen:len(d)])
+		n = fmt.Sprint(r)
+		switch {
+		case err == nil:
+		case err == lz4errors.ErrInvalidSourceShortBuffer:
+			code = 1
+		default:
+			code = 2
+		}
+		switch {
+		case err != nil:
+			cmpStats["error"]++
+		case r == 0:
+			cmpStats["zero,nil"]++
+		default:
+			cmpStats["compressed"]++
+		}
+	}()
+	if n == "PANIC" {
+		cmpStats["panic"]++
+	}
+	fmt.Fprintf(out, "C %s %s %s %d %s %d %s %d %s %s %s\n", t0, u0, hx(src), srcSpare, before, len(d)-dstLen, n, code,
+		hx(d), sparse16(c.VerifTable()), sparse32(c.VerifInUse()))
+}
+
+// fresh compressor, dst of the given length with random prior contents and spare capacity
+func cmpFresh(src []byte, dstLen, dstSpare int) {
+	cmpCase(new(lz4block.Compressor), src, rng.Intn(3), randBytes(dstLen+dstSpare), dstLen)
+}
+
+// genSrc: the source families of the compressor cases.
+func genSrc(kind, n int) []byte {
+	b := make([]byte, n)
+	switch kind {
+	case 0: // incompressible
+		rng.Read(b)
+	case 1: // text-like: words from a small vocabulary
+		words := []string{"the ", "quick ", "brown ", "fox ", "jumps ", "over ", "lazy ", "dog ", "lz4 ", "block ", "compress", "ion ", "\n", "a ", "of "}
+		for i := 0; i < n; {
+			w := words[rng.Intn(len(words))]
+			i += copy(b[i:], w)
+		}
+	case 2: // periodic, period 1..40, a little noise
+		ph := randBytes(1 + rng.Intn(40))
+		noise := rng.Intn(3) == 0
+		for i := range b {
+			b[i] = ph[i%len(ph)]
+			if noise && rng.Intn(60) == 0 {
+				b[i] ^= byte(1 + rng.Intn(255))
+			}
+		}
+	case 3: // zeros (or one repeated byte)
+		c := byte(0)
+		if rng.Intn(3) == 0 {
+			c = byte(rng.Intn(256))
+		}
+		for i := range b {
+			b[i] = c
+		}
+	case 4: // small alphabet
+		for i := range b {
+			b[i] = byte('a' + rng.Intn(3))
+		}
+	case 5: // incompressible head, then copies of it: long literal runs followed by matches
+		h := n / 2
+		rng.Read(b[:h])
+		for i := h; i < n; i++ {
+			b[i] = b[i-h]
+		}
+	default:
+		return genInput(n)
+	}
+	return b
+}
+
+func cmpSize() int {
+	switch rng.Intn(12) {
+	case 0:
+		return rng.Intn(20)
+	case 1:
+		return 1000 + rng.Intn(3100)
+	case 2:
+		return 300 + rng.Intn(700)
+	}
+	return 14 + rng.Intn(300)
+}
+
+// cmpFarCases: candidates at distance winSize-1, winSize, winSize+1 (the `offset >= winSize` test) and a
+// position >= 64 KiB (the `si &^ winMask` arithmetic of get).  8 distinctive bytes at 0, zeros up to the
+// distance, the same 8 bytes again: the candidate for the second occurrence is position 0.
+// These four cases cost the list-based evaluator about a minute each (reads at index ~65536 are O(index)).
+func cmpFarCases() {
+	for _, dist := range []int{65535, 65536, 65537, 65536 + 300} {
+		src := make([]byte, dist+8+24)
+		copy(src, "ABCDEFGH")
+		copy(src[dist:], "ABCDEFGH")
+		copy(src[dist+8:], "the tail of the block...")
+		bound := lz4block.CompressBlockBound(len(src))
+		cmpCase(new(lz4block.Compressor), src, 0, randBytes(bound+1), bound)
+	}
+}
+
+func cmpCases() {
+	// 1. every source length 0..40
+	for n := 0; n <= 40; n++ {
+		for kind := 0; kind < 5; kind++ {
+			src := genSrc(kind, n)
+			bound := lz4block.CompressBlockBound(n)
+			cmpFresh(src, bound, rng.Intn(4))
+			cmpFresh(src, bound-1-rng.Intn(3), rng.Intn(2)) // not compressible: the (0, nil) exits
+			cmpFresh(src, rng.Intn(bound+1), rng.Intn(3))
+		}
+	}
+	// 2. sources of all families, up to ~4 KiB; dst at the bound, below it, anywhere
+	for i := 0; i < 700; i++ {
+		n := cmpSize()
+		src := genSrc(i%8, n)
+		bound := lz4block.CompressBlockBound(n)
+		switch i % 4 {
+		case 0, 1:
+			cmpFresh(src, bound+rng.Intn(3), rng.Intn(5))
+		case 2:
+			cmpFresh(src, bound-1-rng.Intn(1+bound/4), rng.Intn(3))
+		default:
+			cmpFresh(src, rng.Intn(bound+4), rng.Intn(3))
+		}
+	}
+	// 3. every destination length 0 .. bound+3 on a few sources (all error paths and both (0, nil) exits)
+	for k, n := range []int{13, 14, 15, 19, 33, 64, 150, 290, 310} {
+		for _, kind := range []int{k % 6, 5} {
+			src := genSrc(kind, n)
+			bound := lz4block.CompressBlockBound(n)
+			for dl := 0; dl <= bound+3; dl++ {
+				cmpFresh(src, dl, dl%3)
+			}
+		}
+	}
+	// a long literal run (>= 15+255) and a long match (>= 19+255) with every dst length near the places
+	// where the length bytes are written
+	{
+		src := append(randBytes(600), make([]byte, 700)...)
+		src = append(src, randBytes(20)...)
+		bound := lz4block.CompressBlockBound(len(src))
+		for dl := 590; dl <= 640; dl++ {
+			cmpFresh(src, dl, 1)
+		}
+		cmpFresh(src, bound, 0)
+	}
+	// 4. reused objects: the table and bitmap left by previous calls on other sources
+	for i := 0; i < 260; i++ {
+		c := new(lz4block.Compressor)
+		calls := 2 + rng.Intn(3)
+		var prev []byte
+		for k := 0; k < calls; k++ {
+			n := cmpSize()
+			if n > 1500 {
+				n = 14 + rng.Intn(600)
+			}
+			src := genSrc(rng.Intn(8), n)
+			if k > 0 && rng.Intn(3) == 0 && len(prev) > 20 {
+				// a variation of the previous source: stale entries whose hashes come up again
+				src = append([]byte{}, prev...)
+				for j := 0; j < 1+rng.Intn(4); j++ {
+					src[rng.Intn(len(src))] ^= byte(1 + rng.Intn(255))
+				}
+				if rng.Intn(2) == 0 {
+					src = src[rng.Intn(len(src)/2):]
+				}
+			}
+			prev = src
+			bound := lz4block.CompressBlockBound(len(src))
+			dl := bound
+			if rng.Intn(4) == 0 {
+				dl = rng.Intn(bound + 2)
+			}
+			cmpCase(c, src, rng.Intn(2), randBytes(dl+rng.Intn(3)), dl)
+		}
+	}
+	// a table full of arbitrary entries with an arbitrary bitmap (reset must clear the bitmap only)
+	for i := 0; i < 6; i++ {
+		c := new(lz4block.Compressor)
+		t, u := c.VerifTable(), c.VerifInUse()
+		for j := range t {
+			t[j] = uint16(rng.Intn(65536))
+		}
+		for j := range u {
+			u[j] = rng.Uint32()
+		}
+		src := genSrc(i, 100+rng.Intn(400))
+		cmpCase(c, src, 0, randBytes(lz4block.CompressBlockBound(len(src))+2), lz4block.CompressBlockBound(len(src)))
+	}
+	var keys []string
+	for k, v := range cmpStats {
+		keys = append(keys, fmt.Sprintf("%s=%d", k, v))
+	}
+	sort.Strings(keys)
+	fmt.Fprintf(os.Stderr, "cases cmp: outcome mix: %s\n", strings.Join(keys, " "))
+}
+
 func main() {
 	defer out.Flush()
 	if len(os.Args) != 2 {
-		fmt.Fprintln(os.Stderr, "usage: cases xxh|dec")
+		fmt.Fprintln(os.Stderr, "usage: cases xxh|dec|cmp|cmpfar")
 		os.Exit(2)
 	}
 	switch os.Args[1] {
@@ -571,6 +833,10 @@ func main() {
 		xxhCases()
 	case "dec":
 		decCases()
+	case "cmp":
+		cmpCases()
+	case "cmpfar":
+		cmpFarCases()
 	default:
 		os.Exit(2)
 	}
